@@ -126,7 +126,7 @@ def main():
     na += [{"property_id": k, "reason": v} for k, v in sorted(PENDING.items()) if k not in CHECKS]
     m = {
         "version": 1,
-        "setup_cmd": "python3 driver/build.py asan tsan plain",
+        "setup_cmd": "python3 driver/build.py asan asanlite tsan plain",
         "hooks": {
             "guard": "IPHREEQC_VERIF",
             "enable": "-DIPHREEQC_VERIF on every clang command line generated by driver/build.py (ninja files under /verif/build/<variant>)",
